@@ -234,6 +234,17 @@ def filePart (v : Variant) (c : ClientCfg) (f : FileUp) : FilePart :=
   let content := fileContent v f.src
   ⟨f.param, f.name, if f.ctype = [] then c.detect (sniffBuf content) else f.ctype, content⟩
 
+/-- `writeMultipartFormFile` gives up on an upload whose reader the previous attempt closed (the
+rewind fails, `writeMultiPart` ignores the error): the part is missing altogether.  Unreachable in
+the repaired code — `Do` refuses such a request up front, and the loop never retries it (C10-8). -/
+def FileUp.closed (f : FileUp) : Bool :=
+  match f.src with
+  | .closer _ true => true
+  | _ => false
+
+def fileParts (v : Variant) (c : ClientCfg) (files : List FileUp) : List FilePart :=
+  (files.filter fun f => !f.closed).map (filePart v c)
+
 /-- The fields `writeMultiPart` emits: the ordered pairs, then the form map (since /repo
 00dbc9a; before, the ordered pairs were dropped when the map was non-empty). -/
 def multipartFields (st : ReqState) : List (Str × Str) :=
@@ -249,7 +260,7 @@ def parseBody (v : Variant) (c : ClientCfg) (ra : Nat) (st : ReqState) : ReqStat
     if st.multipart then
       ({ st with headers := put st.headers c.ctKey [c.boundaryCT],
                  files := st.files.map fun f => { f with src := f.src.consume } },
-       .multipart (multipartFields st) (st.files.map (filePart v c)))
+       .multipart (multipartFields st) (fileParts v c st.files))
     else if !st.ordered.isEmpty then
       ({ st with headers := put st.headers c.ctKey [c.formCT] },
        if nonEmpty form then .orderedForm st.ordered form else .ordered st.ordered)
